@@ -37,20 +37,21 @@ type solverSpec struct {
 	args func(file string, secs int) []string
 }
 
+// Solver limits are CPU-time limits (ulimit -t), not wall-clock limits, so that a
+// loaded machine makes a check slower instead of turning proofs into timeouts.
 var solvers = []solverSpec{
-	{"z3-new", func(f string, s int) []string { return []string{"z3-new", fmt.Sprintf("-T:%d", s), f} }},
-	{"cvc5", func(f string, s int) []string {
-		return []string{"cvc5", fmt.Sprintf("--tlimit=%d", s*1000), "--produce-models", f}
-	}},
-	{"z3", func(f string, s int) []string { return []string{"z3", fmt.Sprintf("-T:%d", s), f} }},
+	{"z3-new", func(f string, s int) []string { return []string{"z3-new", f} }},
+	{"cvc5", func(f string, s int) []string { return []string{"cvc5", "--produce-models", f} }},
+	{"z3", func(f string, s int) []string { return []string{"z3", f} }},
 }
 
 func runSolver(ctx context.Context, sp solverSpec, file string, secs int, wantModel bool) (status, out string, dur float64) {
 	args := sp.args(file, secs)
 	start := time.Now()
-	cctx, cancel := context.WithTimeout(ctx, time.Duration(secs+2)*time.Second)
+	cctx, cancel := context.WithTimeout(ctx, time.Duration(secs*40+120)*time.Second)
 	defer cancel()
-	cmd := exec.CommandContext(cctx, args[0], args[1:]...)
+	sh := append([]string{"-c", fmt.Sprintf("ulimit -t %d; exec \"$@\"", secs), "sh"}, args...)
+	cmd := exec.CommandContext(cctx, "/bin/sh", sh...)
 	var buf bytes.Buffer
 	cmd.Stdout = &buf
 	cmd.Stderr = &buf
@@ -64,8 +65,8 @@ func runSolver(ctx context.Context, sp solverSpec, file string, secs int, wantMo
 	case "timeout":
 		status = "timeout"
 	default:
-		if cctx.Err() != nil {
-			status = "timeout"
+		if cctx.Err() != nil || cmd.ProcessState == nil || !cmd.ProcessState.Exited() {
+			status = "timeout" // killed by the CPU limit (SIGXCPU/SIGKILL) or by the wall-clock guard
 		} else {
 			status = "error"
 		}
@@ -86,7 +87,7 @@ func solveOne(o *Obligation, dir string, idx int, secs int) {
 		return
 	}
 	defer os.Remove(file)
-	quick := 3
+	quick := 4
 	if secs < quick {
 		quick = secs
 	}
